@@ -299,7 +299,12 @@ def validate_records(ck, recs, name, expect_reject=False, per_file=60):
         rej = res.tagged("REJECTED")
         skp = res.tagged("SKIPPED")
         if (res.rc != 0 and not rej) or not skp or res.distinct != n:
-            raise c.MachineryError("LinksTrace failed on %s: %s" % (path, res.out[-1500:]))
+            # records made by misbehaving code can be unreadable for the trace specification: exit 2 only on a run without violations
+            if ck.require(False, "LinksTrace failed on %s: %s" % (path, res.out[-1500:])) is False:
+                for k in range(n):
+                    skipped.add(off + k)
+                off += n
+                continue
         for r in rej:
             for tid, why in r:
                 rejected[off + int(tid) - 1] = why
@@ -329,18 +334,22 @@ def trace_stage(ck, recs, name, describe):
 def binding_demo(ck, recs):
     """one corrupted field in an accepted record must be rejected"""
     good = [r for r in recs if any(x["out"] == "applied" for x in r["obs"]["calls"]) and r["obs"]["ints"]]
-    if not good:
-        raise c.MachineryError("binding demonstration: no record with an applied link")
-    rec = json.loads(json.dumps(good[0]))
-    ok_rej, ok_skip = validate_records(ck, [rec], "binding_ok", expect_reject=True)
-    if ok_rej or ok_skip:
-        return None          # the base record itself is not accepted (reported elsewhere); no demonstration possible on it
+    if not ck.require(bool(good), "binding demonstration: no record with an applied link"):
+        return None
+    rec = None
+    for cand in good[:5]:    # the first record the specification accepts as it is
+        ok_rej, ok_skip = validate_records(ck, [cand], "binding_ok", expect_reject=True)
+        if not ok_rej and not ok_skip:
+            rec = json.loads(json.dumps(cand))
+            break
+    if not ck.require(rec is not None, "binding demonstration: none of the first records with an applied link is accepted"):
+        return None
     victim = [x for x in rec["obs"]["ints"] if len({tuple(a)[0] for a in x["atoms"]}) > 1] or rec["obs"]["ints"]
     rec["obs"]["ints"].remove(victim[0])
     rej, _ = validate_records(ck, [rec], "binding_corrupt", expect_reject=True)
     if 0 not in rej:
         raise c.MachineryError("binding demonstration failed: a record with one link interaction deleted was accepted")
-    rec2 = json.loads(json.dumps(good[0]))
+    rec2 = json.loads(json.dumps(cand))
     app = [x for x in rec2["obs"]["calls"] if x["out"] == "applied"][0]
     app["out"] = "atoms"
     rej2, _ = validate_records(ck, [rec2], "binding_corrupt2", expect_reject=True)
